@@ -473,10 +473,10 @@ Section Frame.
             end
           end.
 
-  Inductive verdict : Type := VAccept | VReject | VError (e : ecode) | VOutOfFuel.
+  Inductive everdict : Type := VAccept | VReject | VError (e : ecode) | VOutOfFuel.
 
   (* the loop and the final stack test of eval() *)
-  Fixpoint eval_loop (fuel : nat) (v mode : N) (prog : list N) (st : state) : verdict * state :=
+  Fixpoint eval_loop (fuel : nat) (v mode : N) (prog : list N) (st : state) : everdict * state :=
     if Nat.leb (length prog) (st_pc st) then
       match st_stack st with
       | [SU u] => (if N.eqb u 0 then VReject else VAccept, st)
@@ -494,7 +494,7 @@ Section Frame.
 
   (* eval(program, cx) *)
   Definition eval_prog (fuel : nat) (mode minv : N) (app_access args_ok : bool) (prog : list N)
-             (pool : option Z) (w : W) : verdict :=
+             (pool : option Z) (w : W) : everdict :=
     match begin_prog prog minv app_access with
     | Err e => if N.eqb lsv 0 then VError ENotSupported else if negb args_ok then VError EArgs else VError e
     | Ok (v, vlen) =>
